@@ -426,6 +426,69 @@ def eps_value():
     return Fraction(1, 10 ** 9)
 
 
+def trapezoid_flags():
+    """make_trapezoid: the tail of the function (limit checks, optional timing check, returned fields).
+    Two accepted forms of the timing check (added by a repair of the repository):
+      absent, or          if -eps < flat_time < 0: flat_time = 0.0
+                          if rise_time <= 0 or fall_time <= 0 or flat_time < 0: raise ValueError(...)
+    placed after the three limit checks and before the event is built.  The local trapezoid model follows the flag."""
+    tree, _ = parse('make_trapezoid.py')
+    fn = func(tree, 'make_trapezoid')
+    body = strip_doc(fn)
+    texts = [unparse(st.test) if isinstance(st, ast.If) else unparse(st) for st in body]
+    try:
+        i0 = texts.index('rise_time is None and fall_time is None')
+        i1 = texts.index('grad = SimpleNamespace()')
+    except ValueError:
+        raise TranslateError('make_trapezoid: tail of the function not recognised')
+    mid = texts[i0 + 1:i1]
+    limits = ['abs(amplitude2) > max_grad + eps', 'abs(amplitude2) / rise_time > max_slew * (1 + eps)',
+              'abs(amplitude2) / fall_time > max_slew * (1 + eps)']
+    timing = ['-eps < flat_time < 0', 'rise_time <= 0 or fall_time <= 0 or flat_time < 0']
+    if mid == limits:
+        flag = False
+    elif mid == limits + timing:
+        flag = True
+        clamp = body[i0 + 4]
+        if [unparse(st) for st in clamp.body] != ['flat_time = 0.0'] or clamp.orelse:
+            raise TranslateError('make_trapezoid: body of `if -eps < flat_time < 0` changed')
+        rej = body[i0 + 5]
+        if not (len(rej.body) == 1 and isinstance(rej.body[0], ast.Raise) and not rej.orelse):
+            raise TranslateError('make_trapezoid: timing check must raise')
+    else:
+        raise TranslateError('make_trapezoid: checks before the event is built changed: %s' % mid)
+    for st in body[i0 + 1:i0 + 4]:
+        if not (len(st.body) == 1 and isinstance(st.body[0], ast.Raise) and not st.orelse):
+            raise TranslateError('make_trapezoid: limit check must raise')
+    if unparse(body[i0].body[0]) != 'rise_time = fall_time = calculate_shortest_rise_time(amplitude2, max_slew, system.grad_raster_time)':
+        raise TranslateError('make_trapezoid: default ramp time changed')
+    for frag in ('grad.amplitude = amplitude2', 'grad.rise_time = rise_time', 'grad.flat_time = flat_time',
+                 'grad.fall_time = fall_time', 'grad.area = amplitude2 * (flat_time + rise_time / 2 + fall_time / 2)',
+                 'grad.flat_area = amplitude2 * flat_time', 'grad.delay = delay', 'amplitude2 = flat_area / flat_time'):
+        expect_src(fn, frag, 'make_trapezoid')
+    # the two helpers, as text
+    h1 = func(tree, 'calculate_shortest_rise_time')
+    expect_src(h1, 'return math.ceil(max(abs(amplitude) / max_slew, grad_raster_time) / grad_raster_time) * grad_raster_time',
+               'calculate_shortest_rise_time')
+    h2 = func(tree, 'calculate_shortest_params_for_area')
+    want = ['rise_time = math.ceil(math.sqrt(abs(area) / max_slew) / grad_raster_time) * grad_raster_time',
+            'rise_time = max(rise_time, grad_raster_time)', 'amplitude = area / rise_time', 'effective_time = rise_time',
+            'if abs(amplitude) > max_grad + eps:\n'
+            '    effective_time = math.ceil(abs(area) / max_grad / grad_raster_time) * grad_raster_time\n'
+            '    amplitude = area / effective_time\n'
+            '    rise_time = math.ceil(abs(amplitude) / max_slew / grad_raster_time) * grad_raster_time\n'
+            '    rise_time = max(rise_time, grad_raster_time)',
+            'flat_time = effective_time - rise_time', 'fall_time = rise_time',
+            'return (amplitude, rise_time, flat_time, fall_time)']
+    got = [unparse(st) for st in strip_doc(h2)]
+    if got != want:
+        raise TranslateError('calculate_shortest_params_for_area changed: %s' % got)
+    CONSTS['trap_rejects_bad_times'] = flag
+    return ('(* make_trapezoid: `if -eps < flat_time < 0: flat_time = 0.0` and\n'
+            '   `if rise_time <= 0 or fall_time <= 0 or flat_time < 0: raise` present after the limit checks? *)\n'
+            'Definition trap_rejects_bad_times : bool := %s.\n\n' % ('true' if flag else 'false'))
+
+
 def calc_duration_rf():
     tree, _ = parse('calc_duration.py')
     fn = func(tree, 'calc_duration')
@@ -490,6 +553,7 @@ def sec_rf():
         raise TranslateError('adiabatic default use %r is not a supported use' % default_use)
     out += '(* 1-based index of the default use of make_adiabatic_pulse (%r) in rf_uses *)\n' % default_use
     out += 'Definition adia_default_use : nat := %d.\n\n' % (uses.index(default_use) + 1)
+    out += trapezoid_flags()
     out += calc_duration_rf()
     CONSTS['rf_uses'] = uses
     CONSTS['adia_default_use'] = default_use
